@@ -12,7 +12,8 @@ def nontrivial(case, mout):
 RULE = ("for signature types 0x00, 0x01, 0x10-0x13, 0x30 (user id up to 70000 octets and image attribute), 0x18, 0x28, 0x19 (signed by the subkey), 0x1F, 0x20, "
         "x {v4 Ed25519Legacy, v6 Ed25519, v4 RSA-2048 (key body > 255 octets)} x 6 hash algorithms x hashed-subpacket sets (empty ... 60000-octet notation, critical flags, "
         "unknown non-critical types): the digest the library hands to the signing key and to the verifying key (recording key) = hash(preimage) of the RFC transcription; "
-        "v3 signatures (verification only) with harness-built packets. Direct predicate: sign digest = verify digest and verification succeeds")
+        "v3 signatures (verification only) with harness-built packets. Direct predicate: sign digest = verify digest and verification succeeds. "
+        "Added: the public streaming hasher (SignatureConfig::into_hasher) fed the document in pieces with empty writes (at every CR, between single octets, before and after): the digest signed is the RFC digest of the document and the signature verifies over it.")
 TRUSTED = [
     "model file: coq/theories/Sig/Preimage.v (from RFC 9580 5.2.4); theorems coq/theories/Props/C11.v, proofs Sig/PreimageProofs.v",
     "the hashed area is taken as opaque octets (library serialisation of the subpackets; their encoding is C05's subject)",
